@@ -28,7 +28,8 @@ PROFILES = {
     "C02": dict(W_MEMB),
     # laws are (re)assigned on universes that have members, nested universes and themselves among them
     "C19": {**W_LAWS, "u_add": 3, "v_add_uni": 2, "u_rm": 1, "mkv_u": 1, "w_file": 3},
-    "C03": {**W_STRUCT, **{k: v // 2 + 1 for k, v in W_MEMB.items()}, **{k: v // 3 + 1 for k, v in W_LAWS.items()}},
+    "C03": {**W_STRUCT, **{k: v // 2 + 1 for k, v in W_MEMB.items()}, **{k: v // 3 + 1 for k, v in W_LAWS.items()},
+            "other": 6},
 }
 LIMITS = {"V": 5, "U": 3, "E": 7, "M": 2, "W": 4}
 
@@ -278,6 +279,16 @@ class Gen:
             return None
         fn = self.rng.choice(["from_to", "directed", "undirected"])
         return ["link", fn, a, self.rng.choice(ECLS), b, self.rng.random() < 0.5, self.fresh("E")]
+
+    def g_other(self, pool):
+        e = self._pick(self.edges(pool))
+        if e is None:
+            return None
+        ends = [pool.name(x) if x is not None else None for x in pool.get(e).vertices]
+        ends = [x for x in ends if x is None or not x.startswith("?")]
+        if ends and self.rng.random() < 0.7:
+            return ["other", e, self.rng.choice(ends)]  # (None is an end of a half-open edge)
+        return ["other", e, self.rng.choice([None] + self.vertices(pool))]
 
     def g_unlink(self, pool):
         a, b = self._pair(pool)
